@@ -102,6 +102,10 @@ type fileCase struct {
 	NP        []netPrint  `json:"np"`
 	Runes     [][3]int    `json:"runes"`
 	Wf        bool        `json:"wf"`
+	// Lite: a file with one large location map (more than 100 range points, several chunks of the
+	// accumulator scanner).  Only the two dumps are evaluated in Coq (spec_ok); the per-line model,
+	// the oracle tables and the guard computed from them are skipped to keep the case small.
+	Lite bool `json:"lite"`
 }
 
 // ---------------------------------------------------------------- running the real code
@@ -364,6 +368,7 @@ func intsLines(ls [][]byte) [][]int {
 
 func runFile(scratch string, lines [][]byte, v2 bool, serial, preSerial uint32, class string, wf bool) fileCase {
 	builder := strings.Contains(class, "builder")
+	lite := strings.Contains(class, "bigmap")
 	fc := fileCase{Kind: "file", Class: class, V2: v2, Serial: serial, PreSerial: preSerial, File: intsLines(lines), Wf: wf,
 		Pre: [][]int{}, Orig: []dumpEnt{}, PDump: []dumpEnt{}, AccKV: []kvT{}, SoaN: []int{}}
 	o := newOracles()
@@ -439,6 +444,10 @@ func runFile(scratch string, lines [][]byte, v2 bool, serial, preSerial uint32, 
 	}
 	fc.IPP, fc.IPS, fc.CP, fc.NP = o.tables()
 	fc.Runes = runeOracle(all)
+	if lite {
+		fc.Lite = true
+		fc.IPP, fc.IPS, fc.CP, fc.NP, fc.Runes, fc.AccKV = []ipParse{}, []ipPrint{}, []cidrParse{}, []netPrint{}, [][3]int{}, []kvT{}
+	}
 	for _, l := range lines {
 		z := 0
 		if len(l) > 0 && l[0] == 'Z' {
@@ -475,6 +484,9 @@ func run(a *hlib.Args, e *hlib.Emitter) error {
 			if kind == "file" {
 				var file [][]int
 				json.Unmarshal(m["file"], &file)
+				if strings.HasPrefix(class, "file:") {
+					class = strings.TrimPrefix(class, "file:")
+				}
 				json.Unmarshal(m["pre_serial"], &preSerial)
 				var ls [][]byte
 				for _, l := range file {
@@ -559,6 +571,12 @@ func run(a *hlib.Args, e *hlib.Emitter) error {
 			ls = append(ls, []byte(s))
 		}
 		jobs = append(jobs, job{ls, i%2 == 1, 1700000000, 1700000000, "badfile", false})
+	}
+	// one location map with more than 100 range points (the accumulator scanner hands its lines
+	// over in chunks of 100): IPv4, IPv6, and a large map next to small ones
+	for i, kind := range []string{"v4", "v6", "multi"} {
+		ls := gf.bigMapFile(kind)
+		jobs = append(jobs, job{ls, i%2 == 0, 1700000000, 1700000000, "bigmap-" + kind, true})
 	}
 	for i := 0; i < nFiles; i++ {
 		v2 := rf.Chance(1, 2)
